@@ -472,6 +472,9 @@ func (f *cmsgFam) Exec(r *hx.Run, op []string) string {
 		if err != nil {
 			return decodeErrClass(err)
 		}
+		if uint32(ln) < uint32(len(pl)) {
+			r.Viol("C44:short-len-accepted", fmt.Sprintf("an envelope with len=%d and a payload of %d bytes is accepted", ln, len(pl)))
+		}
 		if uint64(m.Type()) != typ {
 			r.Viol(fmt.Sprintf("C44:dispatch-type-mismatch:%d", typ), fmt.Sprintf("envelope type %d decoded to a %s whose Type() is %d", typ, structName(m), m.Type()))
 		}
